@@ -4,7 +4,7 @@ FM  formatter model  (Display for GenericPurl)
 Every model is re-extracted from the facts of the current tree; anchors are found
 by trait identity / public API name, helpers by role through dataflow.
 """
-from .core import AnchorError, callee_name, strip, show, simplify_val
+from .core import MUT_STR_VIEWS, AnchorError, callee_name, strip, show, simplify_val
 from .sem import norm, nshow, atom_of, atoms_at, fmt_pieces, show_atom, is_dropflag_cond
 from . import boolsum
 
@@ -181,6 +181,13 @@ def formatter_model(facts):
                 items.append(("lit", chr(n[1][1])))
             elif n[0] == "const" and isinstance(n[1], str):
                 items.append(("lit", n[1]))
+            elif display_wrapper(facts, n) is not None and display_wrapper(facts, n)[0] == "call" and display_wrapper(facts, n)[1] == ENCODE:
+                # a private wrapper whose Display impl forwards to the encoder: `write!(f, "{}", Encoded::path(x))` with
+                # `impl Display for Encoded { fn fmt(..) { Display::fmt(&utf8_percent_encode(self.raw, self.set), f) } }`
+                w = display_wrapper(facts, n)
+                comp = classify_component(facts, body, body_arg(w, 0))
+                sname, sbits = set_of_term(body_arg(w, 1))
+                items.append(("enc", comp, sname, sbits))
             else:
                 items.append(("raw", classify_component(facts, body, p[1])))
         model.append({"bb": bb, "site": body.site(bb), "atoms": atoms, "loop": loop, "items": items})
@@ -202,6 +209,61 @@ def formatter_model(facts):
         merged.append(a)
         i += 1
     return {"key": key, "body": body, "emits": merged}
+
+
+def display_wrapper(facts, n):
+    """n is a value of a private struct built right here whose Display impl writes exactly one other value with `{}` and
+    nothing else: the term of that value with the struct's fields replaced by the operands it was built from; else None"""
+    if not (n[0] == "agg" and n[1][0] == "adt" and len(n[1]) > 3 and len(n[1][3]) == len(n[2])):
+        return None
+    path, names, ops = n[1][1], list(n[1][3]), n[2]
+    adt = facts.adts.get(path)
+    if adt is None or adt.get("vis") == "pub" or adt.get("reachable"):
+        return None
+    ks = [k for k, f in facts.fns.items() if f.get("impl_trait_def") == "std::fmt::Display" and f.get("name") == "fmt" and (f.get("impl_self") or "").split("<")[0] == path]
+    if len(ks) != 1 or ks[0] not in facts.bodies:
+        return None
+    b = facts.body(ks[0])
+    if b.back_edges():
+        return None
+    inner = None
+    ncalls = 0
+    for bb, t in b.calls():
+        pth = callee_name(t["callee"])
+        args = [b.resolve_operand(a) for a in t["args"]]
+        if not any(strip(a) == ("arg", 2) for a in args):
+            if pth == ENCODE or is_transparent(pth):
+                continue
+            return None
+        ncalls += 1
+        if (pth.endswith(" as std::fmt::Display>::fmt") or pth == "std::fmt::Display::fmt") and len(args) == 2 and strip(args[1]) == ("arg", 2):
+            inner = norm(args[0])
+        elif pth in WRITE_FMT:
+            pieces = fmt_pieces(args[1])
+            if pieces is None or len(pieces) != 1 or pieces[0][0] != "display":
+                return None
+            inner = norm(pieces[0][1])
+        else:
+            return None
+    if ncalls != 1 or inner is None:
+        return None
+
+    def sub(t):
+        if not isinstance(t, tuple):
+            return t
+        if len(t) == 3 and t[0] == "field":
+            base = t[1]
+            while isinstance(base, tuple) and base and base[0] in ("ref", "deref"):
+                base = base[2] if base[0] == "ref" else base[1]
+            if base == ("arg", 1) and t[2] in names:
+                return ops[names.index(t[2])]
+        return tuple(sub(x) for x in t)
+    return sub(inner)
+
+
+def is_transparent(path):
+    from .core import is_transparent_call
+    return is_transparent_call(path)
 
 
 def first_flag_side(body, h, bb):
@@ -965,7 +1027,7 @@ def mut_target(a):
             t = t[2]
         elif t[0] == "deref":
             t = t[1]
-        elif t[0] == "call" and isinstance(t[1], str) and (t[1] == "std::ops::DerefMut::deref_mut" or t[1].endswith("as std::ops::DerefMut>::deref_mut")) and len(t[2]) == 1:
+        elif t[0] == "call" and isinstance(t[1], str) and (t[1] == "std::ops::DerefMut::deref_mut" or t[1].endswith("as std::ops::DerefMut>::deref_mut") or t[1] in MUT_STR_VIEWS) and len(t[2]) == 1:
             mutable = True
             t = t[2][0]
         elif t[0] == "cast" and ("Pointer" in t[1] or "Unsize" in t[1]):
